@@ -128,10 +128,10 @@ theorem possibleKeyAtAux_of_index (v : List (List Bytes)) (vk : List Bytes) (idx
       injection h with h
       subst h
       rfl
-    | cons k ks => rw [indexInPossibleKeysAux] at h; cases h
+    | cons k ks => simp [indexInPossibleKeysAux] at h
   | cons vals rest ih =>
     cases vk with
-    | nil => rw [indexInPossibleKeysAux] at h; cases h
+    | nil => simp [indexInPossibleKeysAux] at h
     | cons k ks =>
       rw [indexInPossibleKeysAux] at h
       cases hj : indexOf (vals.drop 1) k with
@@ -262,11 +262,11 @@ theorem indexInPossibleKeysAux_rowMajor (v : List (List Bytes)) (vk : List Bytes
       rw [indexInPossibleKeysAux] at h
       injection h with h
       subst h
-      simp [KeyIn, rowMajor, digitsOf, keyCount_nil]
-    | cons k ks => rw [indexInPossibleKeysAux] at h; cases h
+      simp [KeyIn, rowMajor, keyCount_nil]
+    | cons k ks => simp [indexInPossibleKeysAux] at h
   | cons vals rest ih =>
     cases vk with
-    | nil => rw [indexInPossibleKeysAux] at h; cases h
+    | nil => simp [indexInPossibleKeysAux] at h
     | cons k ks =>
       rw [indexInPossibleKeysAux] at h
       cases hj : indexOf (vals.drop 1) k with
@@ -328,7 +328,7 @@ theorem indexInPossibleKeysAux_of_keyIn (v : List (List Bytes)) (vk : List Bytes
     indexInPossibleKeysAux v vk idx0 = some (idx0 * keyCount v + rowMajor v (digitsOf v vk)) := by
   induction v generalizing vk idx0 with
   | nil => cases vk with
-    | nil => simp [indexInPossibleKeysAux, keyCount_nil, rowMajor, digitsOf]
+    | nil => simp [indexInPossibleKeysAux, keyCount_nil, rowMajor]
     | cons k ks => exact absurd h (by simp [KeyIn])
   | cons vals rest ih => cases vk with
     | nil => exact absurd h (by simp [KeyIn])
@@ -364,8 +364,8 @@ theorem keyIn_iff (v : List (List Bytes)) (vk : List Bytes) :
         | zero => simpa using hk
         | succ j => simpa using hj j (by simpa using h1) (by simpa using h2)
       · rintro ⟨hl, hj⟩
-        refine ⟨by simpa using hj 0 (by simp) (by simp), by simpa using hl, ?_⟩
+        refine ⟨hj 0 (by simp) (by simp), by simpa using hl, ?_⟩
         intro j h1 h2
-        simpa using hj (j + 1) (by simpa using h1) (by simpa using h2)
+        exact hj (j + 1) (by simpa using h1) (by simpa using h2)
 
 end WebPkg.Bundle
